@@ -31,6 +31,9 @@ type LineInfo struct {
 	StartIdx int
 	// LineText
 	LineText []rune
+	// Continued - the line begins inside a text or comment that started on an earlier line
+	// (it has no indentation of its own)
+	Continued bool
 }
 
 // Token - general token type
